@@ -29,6 +29,7 @@ CONTAINER_MUTATORS = {
     'symmetric_difference_update', '__setitem__', '__delitem__', '__iadd__', '__isub__',
     '__imul__', '__ipow__', '__itruediv__', '__ifloordiv__',
 }
+CONTAINER_FIELDS = {'_variables', '_mapping', '_reverse_mapping', '_constraints', 'state'}
 MODEL_MUTATORS = {
     'refresh', 'simplify', 'set_mapping', 'set_reverse_mapping', '_append_constraint',
     '_pop_constraint', 'normalize',
@@ -420,6 +421,13 @@ class Effects:
                     types = self._types(t, fn, recv)
                     modelish = any(x in self.prog.classes for x in types)
                     tgt = cur if modelish else direct
+                    # a local that aliases a container field (x = obj._variables) updated in place
+                    if cur:
+                        from .astutil import assignments_to
+                        for s_, v_ in assignments_to(fn.node, t.id):
+                            if isinstance(v_, ast.Attribute) and v_.attr in CONTAINER_FIELDS and \
+                                    isinstance(n.op, (ast.BitAnd, ast.BitOr, ast.BitXor, ast.Sub, ast.Add)):
+                                tgt = frozenset(tgt) | frozenset(o for o in cur if o.startswith('elem:'))
                     va = fn.node.args.vararg.arg if fn.node.args.vararg else None
                     if va:   # the elements of *args are the real operands
                         tgt = tgt | frozenset(o for o in cur if o == 'elem:param:' + va)
